@@ -66,10 +66,16 @@ func (f *FnVC) lockOp(st *State, key string, c *ssa.CallCommon, args []Val, rt t
 		}
 		f.setComp(st, heldComp, store(h, m, ns))
 		f.acquire(st, c, m)
+		if op == "Lock" {
+			if sname, li, base, pt, ok := f.lockOwner(c); ok {
+				st.pushHeld(heldRec{lock: m, sname: sname, lockIdx: li, base: base, typ: pt})
+			}
+		}
 		return Val{Typ: rt}, true
 	case "Unlock":
 		f.oblige("unlock", lockName, st, eq(cur, two), pos, "Unlock of a mutex not write-locked here")
 		f.release(st, c, m, pos)
+		st.popHeld(m)
 		h = f.comp(st, heldComp, heldSort())
 		f.setComp(st, heldComp, store(h, m, zero))
 		return Val{Typ: rt}, true
